@@ -9,7 +9,7 @@ from . import ty as T
 from .ty import Ty, INT, BOOL, REAL, STR, REF, NONE, sort_of, parse_type
 from .core import V, PY, CellLoc, FieldLoc, State, Obligation, Unsupported, fresh, fresh_name
 from .engine import I0, And
-from .stmts import FunctionEngine
+from .stmts import FunctionEngine, loop_sig
 from .db import ContractDB
 
 DROPPED_DECORATORS = ('staticmethod', 'classmethod', 'property', 'cached_property', 'cached_function',
@@ -23,11 +23,11 @@ class FuncRun(FunctionEngine):
         self.node = node
         self.line0 = node.lineno
         self.loop_ord = {}
+        self.used_loops = set()
         seen = {}
         for n in ast.walk(node):
             if isinstance(n, (ast.For, ast.While)):
-                sig = (f'for {ast.unparse(n.target)} in {ast.unparse(n.iter)}' if isinstance(n, ast.For)
-                       else f'while {ast.unparse(n.test)}')
+                sig = loop_sig(n)
                 self.loop_ord[id(n)] = seen.get(sig, 0)
                 seen[sig] = seen.get(sig, 0) + 1
         self.call_ord = {}
@@ -106,6 +106,9 @@ class FuncRun(FunctionEngine):
         self.emit(st, 'cover', 'requires', z3.BoolVal(True), expect_sat=True)
         results = self.exec_block(body, st)
         self.npaths = len(results)
+        unused = set(c.get('loops', {})) - self.used_loops
+        if unused:
+            raise LookupError(f'loop(s) named in the contract were not found in {self.key}: {sorted(unused)}')
         nret = 0
         for (cur, o) in results:
             if o.kind == 'normal':
@@ -143,6 +146,7 @@ class FuncRun(FunctionEngine):
                 if k in cur.env:
                     env['final_' + k] = cur.env[k]
         env['result'] = self.result_value(cur, val)
+        self._cur_result = env['result']
         if cur.Y is not None:
             env['Y'] = cur.Y
         self.emit(cur, 'cover', 'path:' + ('/'.join(cur.trace) or 'straight'), z3.BoolVal(True), expect_sat=True)
@@ -158,6 +162,7 @@ class FuncRun(FunctionEngine):
 
     def at_raise(self, cur, exc, env0, pre):
         c = self.contract
+        self._cur_result = None
         self.emit(cur, 'cover', 'path:' + ('/'.join(cur.trace) or 'straight') + f'!{exc}', z3.BoolVal(True),
                   expect_sat=True)
         whens = []
@@ -201,7 +206,16 @@ class FuncRun(FunctionEngine):
                     key, decl = self.field_decl(head, fld)
                     if key:
                         whole.add(key)
+        if 'result' in [m.split('.')[0] for m in mods] and getattr(self, '_cur_result', None) is not None:
+            env0 = dict(env0)
+            env0['result'] = self._cur_result
+            for m in mods:
+                if m.startswith('result.') and env0['result'].ty.kind == 'Ref':
+                    key, decl = self.field_decl(env0['result'].ty.cls, m.split('.', 1)[1])
+                    allowed.setdefault(key, []).append(env0['result'].t)
         for key, arr in cur.fields.items():
+            if key == '!alloc':
+                continue
             was = pre.fields.get(key)
             if was is None:
                 was = z3.Const(f'fld0!{key}', arr.sort())
